@@ -138,3 +138,18 @@ theorem Seven_hand_rank_value_validated (a b c d e f g : Nat) :
     cases handRankValue packed [a, b, c, d, e, f, g] <;> rfl
 
 end Tie
+
+/-! ## axiom audit (written by tools/tie.py --audit) -/
+#print axioms Tie.perms_eq
+#print axioms Tie.pick_eq
+#print axioms Tie.Six_five_from_permutation
+#print axioms Tie.Seven_five_from_permutation
+#print axioms Tie.pick_shape
+#print axioms Tie.foldl_stepBest_none
+#print axioms Tie.best_loop
+#print axioms Tie.Six_hand_rank_value_and_hand
+#print axioms Tie.Seven_hand_rank_value_and_hand
+#print axioms Tie.Six_hand_rank_value
+#print axioms Tie.Seven_hand_rank_value
+#print axioms Tie.Six_hand_rank_value_validated
+#print axioms Tie.Seven_hand_rank_value_validated
